@@ -264,3 +264,37 @@ def rejects_unknown_language(ctx, rc, reg, disp, regname='readcodefunc'):
     calls = [n for n, cal in ctx.E.callees(rc) if cal is disp]
     normal, raised = outcome_under(rc, ft)
     return normal is False and 'ValueError' in raised and not any(g.node_for(c) in may for c in calls)
+
+
+def attr_from_param(cls, param):
+    """Role discovery: the instance attribute that __init__ derives from constructor parameter `param`
+    (public API name).  Returns the attribute name or None."""
+    init = cls.methods.get('__init__')
+    if init is None:
+        return None
+    best = None
+    for a, v in cls.init_attr_exprs.items():
+        if param in derived(init.node, v):
+            # prefer the attribute that stores the parameter itself over values computed from several things
+            if isinstance(v, ast.Name) and v.id == param:
+                return a
+            best = best or a
+    return best
+
+
+def default_only_when_absent(func, ret):
+    """Path conditions: with every existence test of the function folded to True (the file exists) the given
+    non-parsed `return` is unreachable.  Three-valued."""
+    from ..pathcond import runs_under
+    from ..rules import eval_bool, is_exists_call
+    from .C20 import fold
+
+    def ft(t):
+        def atoms(x):
+            if is_exists_call(x):
+                return True
+            # e.g. `st_size == 0`, `len(text) == 0`: not an existence test -> undecided
+            return None
+        return eval_bool(t, atoms)
+    r = runs_under(func, ret, ft)
+    return r is False
